@@ -356,7 +356,8 @@ TrClone ==
 
 TrDrop ==
   /\ Ev("drop")
-  /\ Step(<<>>)
+  \* (a handle may be dropped through Manager::try_remove_node: it must not fail)
+  /\ Step(<< O("C05", "drop.ok", ~Has(Rec[l], "res")), O("C06", "drop.ok", ~Has(Rec[l], "res")) >>)
   /\ Drop(Rec[l].a)
   /\ aux' = [aux EXCEPT !.fresh = FALSE]
 
